@@ -268,7 +268,7 @@ pub fn replay(ctx: &mut Ctx, d: &J) -> Option<()> {
         return Some(());
     }
     if d.get("big_batch").is_some() {
-        // (the batch family is re-run as a whole by the check itself; nothing to replay in isolation)
+        super::rerun_fixed(ctx);
         return Some(());
     }
     let nd = nd_from_json(d.get("value")?)?;
